@@ -956,10 +956,11 @@ def explore(ctx: Ctx):
         "standup": [{}, CFG_ALT] + ([CFG_DEG] if thorough else []),
     }
     trans_cfgs = {"locomotion": [{}], "standing": [{}], "standup": [{}]}
+    # a control step other than the default 0.02 s (quick: transition clause only, one key, two actions)
+    slow = {"control_frequency_hz": 25.0}
+    trans_cfgs["locomotion"].append(slow)
     if thorough:
-        slow = {"control_frequency_hz": 25.0}
         cfgs["locomotion"].append(slow)
-        trans_cfgs["locomotion"].append(slow)
 
     # compile everything MJX-heavy in the background (XLA compilation releases the GIL)
     pool = cf.ThreadPoolExecutor(3)
@@ -1047,6 +1048,8 @@ def explore(ctx: Ctx):
                     fl = [None, 2.9] if not thorough else [None, 0.7, 1.5, 2.9]
                     if act in ("plus", "minus") and not thorough:
                         fl = [None] if t == "locomotion" else [1.5]
+                    if kw and not thorough and (k != keys[0] or act in ("plus", "minus")):
+                        continue
                     for fq in fl:
                         tcases.append({"task": t, "kwargs": kw, "key": k, "action": act, "steps": steps, "freq": fq})
     ctx.run("transition", tcases)
